@@ -284,6 +284,24 @@ def run(tier):
     # static half judged with the same FreeNames, through Trace_Imports on a synthetic one-file tree:
     # a file declaring the root and importing exactly dependencies() must be closed
     srecs, smeta = [], []
+    # ... also for every program of the C01 corpus (all attribute combinations, enum representations, generic programs)
+    import c01
+    punits, pobs, pc, _pst = c01.observe(tier)
+    for u in punits:
+        if "prog" not in u.meta or u.name in pc.rejected or u.name not in pobs:
+            continue
+        info = pobs[u.name]["info"]
+        # (an instantiation P<A> depends on what its concrete declaration names: the argument included)
+        which = "decl_concrete" if u.meta["prog"].get("garg") else "decl"
+        if "ok" in info[which] and "ok" in info["deps"]:
+            try:
+                d_ = tsparse.parse_decl(info[which]["ok"])
+            except tsparse.TsSyntaxError:
+                continue
+            desc = {"prop": PROP, "edge": "program of slice " + u.meta["slice"], "dplace": "-", "rplace": "-", "dir": "-", "esm": False,
+                    "field_attrs": sorted({a for f in (u.meta["prog"]["fields"] + [f for vv in u.meta["prog"]["variants"] for f in vv["fields"]]) for a in f["attrs"]})}
+            stats.setdefault("static", []).append((desc, u, d_, sorted({x[0] for x in info["deps"]["ok"]})))
+            stats["static_checked"] += 1
     for desc, u, d_, deps in stats.pop("static", []):
         if desc["esm"]:
             continue
